@@ -358,7 +358,9 @@ const enumBudget = 400000
 // graphs (mandatory when a zero weight is present), sigma counting otherwise.
 // ok=false means the case cannot be judged (zero weights on a large graph).
 func spReference(k *K, m *G) (*spRef, string, bool) {
-	zero := m.Weighted && m.HasZeroWeight()
+	// zero or negative weights (the callers guarantee: no negative cycle, hence
+	// shortest walks are simple paths) rule out Dijkstra sigma counting
+	zero := m.Weighted && (m.HasZeroWeight() || m.HasNegWeight())
 	if m.N <= 8 {
 		if ref, ok := refEnumerate(m, enumBudget); ok {
 			if !zero && m.N >= 2 {
@@ -405,6 +407,31 @@ func connClass(d [][]float64) string {
 		}
 	}
 	return "connected"
+}
+
+// nodeMags, when set by the caller for the duration of one compareNodeMap
+// call through compareNodeMapMag, holds per node the sum of the magnitudes of
+// the terms of a signed sum: the band is then rel*max(|want|, mag) (a sum of
+// signed terms is only accurate relative to the sum of their magnitudes).
+func compareNodeMapMag(kk *K, name, class string, m *G, got map[int64]float64, want, mag []float64, rel float64, extra any) {
+	adj := make(map[int64]float64, len(got))
+	for i, id := range m.IDs {
+		x, ok := got[id]
+		if !ok {
+			continue
+		}
+		// inside the magnitude band the value counts as the expected one
+		if !math.IsNaN(x) && !math.IsInf(x, 0) && !math.IsInf(want[i], 0) && math.Abs(x-want[i]) <= rel*math.Max(math.Abs(want[i]), mag[i]) {
+			x = want[i]
+		}
+		adj[id] = x
+	}
+	for id, x := range got {
+		if _, ok := adj[id]; !ok {
+			adj[id] = x
+		}
+	}
+	compareNodeMap(kk, name, class, m, adj, want, false, rel, extra)
 }
 
 func compareNodeMap(kk *K, name, class string, m *G, got map[int64]float64, want []float64, nonZeroOnly bool, rel float64, extra any) {
@@ -497,6 +524,9 @@ func edgeMapOut(m map[[2]int64]float64) []string {
 // constructors (the network functions take it as an argument; the doc says
 // "the graph g used to construct the given shortest paths").
 func allShortest(kk *K, g graph.Graph, which int) (p path.AllShortest, name string, ok bool) {
+	if which%3 == 0 && kk.g != nil && kk.g.Weighted && kk.g.HasNegWeight() {
+		which = 1 + (which/3)%2 // "DijkstraAllPaths will panic if g has a negative edge weight"
+	}
 	switch which % 3 {
 	case 0:
 		name = "DijkstraAllPaths"
@@ -526,6 +556,10 @@ func checkBetweenness(k *K, m *G, r *vrt.Rand, reps []Rep) {
 	if m.Weighted && m.HasZeroWeight() {
 		sig += "+zero-weight"
 		class += "|zero-weight"
+	}
+	if m.Weighted && m.HasNegWeight() {
+		sig += "+negative-weight"
+		class += "|negative-weight"
 	}
 	class += "|ref=" + how
 	for _, rep := range reps {
@@ -593,11 +627,17 @@ func checkDistance(k *K, m *G, r *vrt.Rand, reps []Rep) {
 	har := make([]float64, n)
 	res := make([]float64, n)
 	ecc := make([]float64, n)
+	farMag := make([]float64, n)
+	harMag := make([]float64, n)
 	for v := 0; v < n; v++ {
 		for u := 0; u < n; u++ {
 			x := d[u][v]
 			if math.IsInf(x, 1) {
 				continue
+			}
+			farMag[v] += math.Abs(x)
+			if u != v && x != 0 {
+				harMag[v] += math.Abs(1 / x)
 			}
 			far[v] += x
 			if x > ecc[v] {
@@ -617,6 +657,10 @@ func checkDistance(k *K, m *G, r *vrt.Rand, reps []Rep) {
 		if m.HasZeroWeight() {
 			class += "|zero-weight"
 			sig += "+zero-weight"
+		}
+		if m.HasNegWeight() {
+			class += "|negative-weight"
+			sig += "+negative-weight"
 		}
 	}
 	for _, rep := range reps {
@@ -643,17 +687,52 @@ func checkDistance(k *K, m *G, r *vrt.Rand, reps []Rep) {
 		}
 		r.Shuffle(len(list), func(a, b int) { list[a], list[b] = list[b], list[a] })
 		list = append(list, list[0])
+		results := map[string]map[int64]float64{}
+		defer func() { closenessIsInverseFarness(kk, sig, m, results["Closeness"], results["Farness"]) }()
 		for _, ms := range list {
 			var got map[int64]float64
 			if !kk.try(ms.name, sig, func() { got = ms.f(g, p) }) {
 				continue
 			}
+			results[ms.name] = got
 			kk.eval(ms.name, class+"|"+pname, n > 1)
 			if len(got) != n {
 				kk.viol(ms.name+"|"+sig+"|key-set", got, "%s: %d entries for %d nodes", ms.name, len(got), n)
 				continue
 			}
-			compareNodeMap(kk, ms.name, sig, m, got, ms.want, false, distRel, pname)
+			switch ms.name {
+			case "Harmonic":
+				compareNodeMapMag(kk, ms.name, sig, m, got, ms.want, harMag, distRel, pname)
+			case "Farness":
+				compareNodeMapMag(kk, ms.name, sig, m, got, ms.want, farMag, distRel, pname)
+			default:
+				compareNodeMap(kk, ms.name, sig, m, got, ms.want, false, distRel, pname)
+			}
+		}
+	}
+}
+
+// closenessIsInverseFarness checks the relation the two doc formulas state:
+// C(v) = 1 / \sum_u d(u,v) and F(v) = \sum_u d(u,v) over the same distances
+// with the same exclusion of infinite distances, hence C(v) = 1/F(v) (1/0 =
+// +Inf) whatever the distances are.
+func closenessIsInverseFarness(kk *K, sig string, m *G, clo, far map[int64]float64) {
+	if clo == nil || far == nil {
+		return
+	}
+	for _, id := range m.IDs {
+		c, ok1 := clo[id]
+		f, ok2 := far[id]
+		if !ok1 || !ok2 {
+			continue
+		}
+		if math.IsNaN(f) && math.IsNaN(c) {
+			continue
+		}
+		if !closeRel(c, 1/f, distRel) {
+			kk.viol("Closeness|"+sig+"|not-inverse-of-Farness", map[string]any{"closeness": clo, "farness": far},
+				"node %d: Closeness %.17g is not 1/Farness = 1/%.17g although both are defined from the same sum of non-infinite incoming distances", id, c, f)
+			return
 		}
 	}
 }
